@@ -1,0 +1,94 @@
+//go:build verif
+
+package bn256
+
+// VerifGfp applies one base-field primitive to raw 256-bit operands given as big-endian bytes
+// (Montgomery-domain residues; nothing is converted or reduced here). alias selects the result
+// operand: 0 a fresh element, 1 the first operand, 2 the second operand; n is the repeat count of
+// the squarings. It exists for the external verification harness only.
+func VerifGfp(op string, a, b *[32]byte, n, alias int) (out [32]byte, flag int) {
+	x, y, res := new(gfP), new(gfP), new(gfP)
+	gfpUnmarshal(x, a)
+	gfpUnmarshal(y, b)
+	switch alias {
+	case 1:
+		res = x
+	case 2:
+		res = y
+	}
+	switch op {
+	case "neg":
+		gfpNeg(res, x)
+	case "add":
+		gfpAdd(res, x, y)
+	case "double":
+		gfpDouble(res, x)
+	case "triple":
+		gfpTriple(res, x)
+	case "sub":
+		gfpSub(res, x, y)
+	case "mul":
+		gfpMul(res, x, y)
+	case "sqr":
+		gfpSqr(res, x, n)
+	case "frommont":
+		gfpFromMont(res, x)
+	case "invert":
+		res.Invert(x)
+	case "sqrt":
+		if Sqrt(res, x) {
+			flag = 1
+		}
+	case "lessthanp":
+		flag = lessThanP(x)
+	default:
+		panic("bn256: unknown verification primitive " + op)
+	}
+	gfpMarshal(&out, res)
+	return
+}
+
+// VerifGfp2 applies one primitive of the quadratic extension to a = ax*u + ay and b = bx*u + by
+// (raw Montgomery-domain coordinates, big-endian). alias as in VerifGfp.
+func VerifGfp2(op string, ax, ay, bx, by *[32]byte, alias int) (ox, oy [32]byte) {
+	a, b, res := new(gfP2), new(gfP2), new(gfP2)
+	gfpUnmarshal(&a.x, ax)
+	gfpUnmarshal(&a.y, ay)
+	gfpUnmarshal(&b.x, bx)
+	gfpUnmarshal(&b.y, by)
+	switch alias {
+	case 1:
+		res = a
+	case 2:
+		res = b
+	}
+	switch op {
+	case "mul":
+		res.Mul(a, b)
+	case "mulu":
+		res.MulU(a, b)
+	case "mulu1":
+		res.MulU1(a)
+	case "square":
+		res.Square(a)
+	case "squareu":
+		res.SquareU(a)
+	case "add":
+		res.Add(a, b)
+	case "sub":
+		res.Sub(a, b)
+	case "neg":
+		res.Neg(a)
+	case "double":
+		res.Double(a)
+	case "triple":
+		res.Triple(a)
+	case "invert":
+		res.Invert(a)
+	default:
+		panic("bn256: unknown verification primitive " + op)
+	}
+	gfpMarshal(&ox, &res.x)
+	gfpMarshal(&oy, &res.y)
+	return
+}
